@@ -374,6 +374,115 @@ def _dep_diff_envs(actual, expected, argspecs):
                         return
 
 
+def _solve_eq(x, c):
+    """{arg index: (mask, value)} making the term x equal to the constant c, for the invertible shapes
+    (argument slices, concatenations, zero extensions, masks, xor / add / not with constants); None otherwise"""
+    o, w = x[0], x[1]
+    c &= (1 << w) - 1
+    if o == "const":
+        return {} if x[2] == c else None
+    if o == "arg":
+        return {x[2]: (((1 << w) - 1) << x[3], c << x[3])}
+    if o == "concat":
+        out = {}
+        lo = 0
+        for p_ in x[2:]:
+            r = _solve_eq(p_, (c >> lo) & ((1 << p_[1]) - 1))
+            if r is None:
+                return None
+            for k, (m, v) in r.items():
+                m0, v0 = out.get(k, (0, 0))
+                if (m0 & m) and ((v0 ^ v) & m0 & m):
+                    return None
+                out[k] = (m0 | m, v0 | v)
+            lo += p_[1]
+        return out
+    if o == "slice":
+        inner = x[2]
+        if inner[0] in ("arg", "concat"):
+            return None             # normalised away by the constructors; not expected
+        return None
+    if o == "not":
+        return _solve_eq(x[2], ~c)
+    if o in ("and", "xor", "add") and len(x) == 4:
+        a, b = x[2], x[3]
+        if a[0] == "const":
+            a, b = b, a
+        if b[0] != "const":
+            return None
+        if o == "and":
+            if c & ~b[2]:
+                return None
+            return _solve_eq(a, c)
+        if o == "xor":
+            return _solve_eq(a, c ^ b[2])
+        return _solve_eq(a, c - b[2])
+    return None
+
+
+def _guard_envs(forms, argspecs, limit=240):
+    """targeted probes taken from the code's own constants: for every comparison of an invertible expression
+    over argument bits with a constant, inputs on which the expression equals the constant (and its two
+    neighbours), on several backgrounds.  A guard such as  x == 0x6AD6  is satisfied by one value in 2^16;
+    the forms say which one.  (Only candidates: the verdict comes from evaluating both forms.)"""
+    guards = []
+    seen = set()
+    stack = list(forms)
+    while stack and len(guards) < 64:
+        x = stack.pop()
+        if not isinstance(x, tuple) or id(x) in seen:
+            continue
+        seen.add(id(x))
+        if x[0] == "icmp":
+            a, b = x[3], x[4]
+            if a[0] == "const":
+                a, b = b, a
+            if b[0] == "const" and a[0] != "const" and a[1] >= 4:
+                guards.append((a, b[2]))
+        stack.extend(y for y in x[2:] if isinstance(y, tuple))
+    if not guards:
+        return
+    rnd = random.Random(977)
+    out = 0
+    sols = []
+    have = set()
+    for (a, c) in guards:
+        for d in (0, 1, -1):
+            r = _solve_eq(a, c + d)
+            if r:
+                key = tuple(sorted(r.items()))
+                if key not in have:
+                    have.add(key)
+                    sols.append(r)
+    if not sols:
+        return
+    per = max(2, min(6, limit // len(sols)))
+    for r in sols:
+        for j in range(per):
+            args = []
+            for ai, (bt, lb, dom) in enumerate(argspecs):
+                AM = (1 << bt) - 1
+                if j == 0:
+                    v = rnd.getrandbits(bt)
+                elif j == 1:
+                    v = 0
+                elif j == 2:
+                    v = AM
+                else:
+                    v = rnd.getrandbits(bt)
+                if ai in r:
+                    m, val = r[ai]
+                    v = (v & ~m) | val
+                v &= AM
+                if dom:
+                    v = dom(v)
+                args.append(v)
+            yield args
+            out += 1
+            if out >= limit:
+                return
+
+
 def _count_fp(t):
     seen = set()
     stack = [t]
@@ -401,6 +510,8 @@ def _find_witness(actual, expected, argspecs, names, lane_bits, seed, env_ok, wa
     cost = max(1, sz // 64 + 2 * nfp) * len(modes)
     probes = list(itertools.islice(_cross_lane_envs(actual, argspecs, lane_bits), 600 if nfp * 40 < sz else 120))
     probes = list(_dep_diff_envs(actual, expected, argspecs)) + probes
+    guards = list(_guard_envs((actual, expected), argspecs))
+    probes = probes[:60] + guards + probes[60:]
     if EXTRA_POINTS[0] and names:
         ex = []
         pts = EXTRA_POINTS[0]
